@@ -72,4 +72,22 @@ PLAN = {
         "trusted_base": BASE_TRUST,
         "assumptions": BASE_ASSUME,
     },
+    "C01": {
+        "streams": {
+            "quick": [fs(120, 16, "C01"), fs(60, 14, "C01", wild=True), fs(60, 20, "", mode="reopen")],
+            "thorough": [fs(2000, 20, "C01", rs="20,1,2,3,7,64", timeout=6000), fs(1000, 18, "C01", wild=True, timeout=6000), fs(1000, 24, "", mode="reopen", timeout=3000)],
+        },
+        "generated": ["Stfs/Gen/PosArith.lean", "Stfs/Gen/Consts.lean (record keys, suffix tables)"],
+        "trusted_base": BASE_TRUST,
+        "assumptions": BASE_ASSUME,
+    },
+    "C07": {
+        "streams": {
+            "quick": [fs(120, 16, "C07"), fs(60, 14, "C07", wild=True)],
+            "thorough": [fs(2000, 20, "C07", rs="20,1,2,3,7,64", timeout=6000), fs(1000, 18, "C07", wild=True, timeout=6000)],
+        },
+        "generated": ["Stfs/Gen/PosArith.lean", "Stfs/Gen/Consts.lean"],
+        "trusted_base": BASE_TRUST,
+        "assumptions": BASE_ASSUME,
+    },
 }
